@@ -133,5 +133,8 @@ func checkC19(c *CheckCtx) error {
 	if err := c.replayModel("Gen_Framing_sim.cfg", c.pick(300, 5000), 8, "ms", 0, "ssnap"); err != nil {
 		return err
 	}
-	return c.randomFraming(c.pick(150, 3000), []string{"ssnap", "ssnap", "sjson"}, []string{"default", "ci", "update", "other", "color"}, 0.4, "r")
+	if err := c.randomFraming(c.pick(150, 3000), []string{"ssnap", "ssnap", "sjson"}, []string{"default", "ci", "update", "other", "color"}, 0.4, "r"); err != nil {
+		return err
+	}
+	return c.repro(reproK8())
 }
